@@ -115,6 +115,7 @@ def explore(ctx, depth):
     # root's missing parent): correspondence with the model on every pair of bounds
     docrun.raw_range_tie(ctx, docrun.raw_cases(ctx, [c.adoc for c in frontier[:6 if depth == 'quick' else 60]], kinds=('plus', 'late-header', 'plus-unopened', 'blank')),
                          encs=('kern', 'bekern'))
+    docrun.reuse_objects(ctx, core + frontier, steps=150)
     for stream, cases in (('core', core), ('frontier', frontier)):
         exps = []
         for case in cases:
